@@ -4,11 +4,12 @@ import PlumVerif.Model.Producer
 C09 — WHICH exception classes the receive pipeline contains, and which it takes for a lost connection.
 
 The pool machine (Model/Pool.lean) and the producer machine (Model/Producer.lean) take "handling raises" /
-"read() raises" as input bits.  This file makes the classes behind those bits explicit and takes the except clauses
-themselves from the SOURCE: `Gen.producerHandlers` / `Gen.consumerHandlers` are the clauses of the `try` statements of
-`AsyncProtocol.frame_producer` / `frame_consumer` in order (tools/gen_tables.py reads them from the ast), `Gen.excIsA`
-is the subclass relation between the exception families below and the classes those clauses name, as the interpreter
-answers `issubclass` (every representative of a family agrees, or the row says 2).
+"read() raises" as input bits.  This file makes the classes behind those bits explicit and takes the reaction to each
+class from the CODE: `Gen.producerProbe` / `Gen.consumerProbe` are what the real coroutines `AsyncProtocol.frame_producer`
+/ `frame_consumer` did when the translator (tools/gen_tables.py `_pipeline`) ran them with a reader / an entry lookup / a
+device that raises an exception of each family (behaviour, not syntax: a behaviour-preserving rewrite of the loops leaves
+the tables unchanged); `Gen.excIsA` is `issubclass(·, Exception)` as the interpreter answers it (every representative of
+a family agrees, or the row says 2).
 
     producer:   try: … await writer.write(frame) … await reader.read() … queues.read.put_nowait(response)
                 except ProtocolError: log                      → continue
@@ -57,22 +58,28 @@ inductive Reaction
   | propagates   -- no clause matches: the exception ends the task
 deriving Repr, DecidableEq
 
-/-- Python's `try` statement: the first clause that names a superclass handles the exception -/
-def react : List (List String × String) → Exc → Reaction
-  | [], _ => .propagates
-  | (names, act) :: rest, e =>
-    if names.any (isA e) then (if act == "break" then .breaks else .continues) else react rest e
+/-- what `frame_producer` does when `reader.read()` raises an exception of the family — as PROBED on the code by the
+translator (`Gen.producerProbe`: the real coroutine run with a reader that raises once) -/
+def producerReaction (e : Exc) : Reaction :=
+  match Gen.producerProbe.lookup e.family with
+  | some "continue" => .continues
+  | some "break" => .breaks
+  | _ => .propagates
 
-def producerReaction (e : Exc) : Reaction := react Gen.producerHandlers e
-def consumerReaction (e : Exc) : Reaction := react Gen.consumerHandlers e
+/-- the consumer survives an exception of the family raised at the site ("entry": `get_device_entry`, "handle":
+`device.handle_frame`) AND acknowledges the frame — as probed (`Gen.consumerProbe`: the real coroutine run on two frames) -/
+def consumerContainsAt (e : Exc) (site : String) : Bool :=
+  Gen.consumerProbe.any fun r => r.1 == e.family && r.2.1 == site && r.2.2 == 1
 
-/-- the consumer acknowledges the frame whatever happened (`task_done` in `finally`), and both the entry lookup and
-the handling are inside the `try` -/
+def consumerReaction (e : Exc) : Reaction :=
+  if consumerContainsAt e "entry" && consumerContainsAt e "handle" then .continues else .propagates
+
+/-- the probe's verdict includes the accounting: a contained frame is acknowledged (`task_done`), whichever site raised -/
 def consumerAccounts : Bool :=
-  Gen.consumerFinallyCalls.contains "task_done" && Gen.consumerTryCalls.contains "get_device_entry"
-    && Gen.consumerTryCalls.contains "handle_frame"
+  [Exc.protocolError, .osError, .timeoutError, .other].all fun e =>
+    consumerContainsAt e "entry" == consumerContainsAt e "handle"
 
-/-- the `contain` bit of the pool machine, computed from the source -/
+/-- the `contain` bit of the pool machine, computed from the probes -/
 def containBit : Bool :=
   [Exc.protocolError, .osError, .timeoutError, .other].all (fun e => consumerReaction e == .continues) && consumerAccounts
 
